@@ -51,6 +51,14 @@ pub fn gen_c01_space(r: &mut Rng, frames: i32) -> Scn {
             let a = r.range(1000, 5000);
             c.pauses.push((a, a + r.pick(&[100u64, 300, 1000, 2500])));
         }
+        // a late joiner: does nothing at all for the first while (handshake retries on the others)
+        if r.chance(0.08) {
+            c.pauses.push((0, r.range(200, 3000)));
+        }
+        // extra polls between advancing ticks: arrivals are then processed by poll_remote_clients,
+        // not by advance_frame's own poll
+        c.polls_per_tick = r.pick(&[1u64, 1, 1, 2, 4]);
+        c.drain = r.chance(0.9);
         let _ = i;
         s.nodes.push(c);
     }
